@@ -20,6 +20,20 @@ Argument terms: {'lit': v} | {'T': ops} | {'spec': sub} | {'list': [...]} | {'tu
 from collections import OrderedDict
 
 
+
+class Record(dict):
+    """a dict subclass used as a dict spec: the result is a Record, too"""
+
+
+class MyOD(OrderedDict):
+    pass
+
+
+import collections as _collections
+DICT_KINDS = {'dict': dict, 'odict': OrderedDict, 'record': Record, 'myod': MyOD, 'counter': _collections.Counter,
+              'ddict': _collections.defaultdict}
+
+
 class Sentinel:
     def __init__(self, name):
         self.name = name
@@ -146,7 +160,7 @@ def ev(term, target, env, ctx):
     if k == 'T':
         return ev_T(term[1], target)
     if k == 'dict':
-        ret = OrderedDict() if term[2] == 'odict' else {}
+        ret = DICT_KINDS[term[2]]()
         for key, sub in term[1]:
             val = ev(sub, target, env, ctx)
             if val is SKIP:
